@@ -198,18 +198,22 @@ def ref_cmake(line, pairs, at_only):
                 else: missing.append(name)
                 i = j + 1; continue
         elif not at_only and is_(ch, '$') and i + 1 < n and is_(line[i + 1], '{'):
-            j = i + 2
-            while True:
+            # ${...}: the text up to the MATCHING brace is itself expanded first (nested ${..} and @..@), the result is the variable name
+            j = i + 2; depth = 1
+            while depth > 0:
                 if j >= n: raise ValueError('incomplete variable')
-                if is_(line[j], '}'): break
-                if is_(line[j], '$') or is_(line[j], '@') or is_(line[j], '\n'): raise Outside()
+                if j + 1 < n and is_(line[j], '$') and is_(line[j + 1], '{'): depth += 1; j += 2; continue
+                if is_(line[j], '}'): depth -= 1; j += 1; continue
+                if is_(line[j], '@') or is_(line[j], '\n'): j += 1; continue
                 if not decide(c_in(chars_of(line[j])[0], VALID)): raise ValueError('invalid character')
                 j += 1
-            name = line[i + 2:j]
+            name, inner_missing = ref_cmake(line[i + 2:j - 1], pairs, at_only)
+            missing.extend(inner_missing)
+            if not okname(name) and len(name): raise ValueError('invalid character in the expanded name')
             found, v = lookup(pairs, name)
             if found: out = out + render_cmake(v)
             else: missing.append(name)
-            i = j + 1; continue
+            i = j; continue
         out = out + ch; i += 1
     return out, missing
 
